@@ -6,8 +6,8 @@
 # the change under seeded/<id>/ and removes the worktree.
 set -u
 P="$1"; K="$2"; shift 2; EXTRA="$*"
-SRC=/tmp/mut/out_$P
-ID="${P}-m${K}"
+ROUND="${ROUND:-1}"
+if [ "$ROUND" = "1" ]; then SRC=/tmp/mut/out_$P; ID="${P}-m${K}"; else SRC=/tmp/mut/out${ROUND}_$P; ID="${P}-r${ROUND}m${K}"; fi
 WT=/tmp/mut/verify_$ID
 [ -f "$SRC/m$K.diff" ] || { echo "$ID: no diff"; exit 2; }
 git -C /repo worktree add -q --detach "$WT" HEAD || exit 2
@@ -35,7 +35,7 @@ if os.path.exists(out+"/author.json"):
     os.remove(out+"/author.json")
 meta={"id":ID,"property":P,"summary":author.get("summary"),"site":author.get("site"),"needs":author.get("needs"),
       "confirmed":{"demo_exit_on_clean_tree":int(rc),"demo_exit_with_change":int(rm),"suite_with_change":suite},
-      "ran":f"ingest_mutant.sh {P} {ID.split('-m')[1]}: scratch worktree of /repo; demo on clean tree and with the change; whole pytest suite with the change; ./check with VERIF_REPO pointing at the changed worktree",
+      "ran":f"ingest_mutant.sh {P} {ID.rsplit('m',1)[1]}: scratch worktree of /repo; demo on clean tree and with the change; whole pytest suite with the change; ./check with VERIF_REPO pointing at the changed worktree",
       "check_output":[l for l in res.splitlines() if l.strip()],
       "detected":("VIOLATION property=") in res}
 json.dump(meta,open(out+"/meta.json","w"),indent=1)
